@@ -55,6 +55,8 @@ GNext ==
      \/ IdleExtractFrame /\ hist' = Append(hist, Ev("it", 0, out'[Len(out')])) /\ UNCHANGED <<nreads, wire0>>
      \/ IdleNeedMore /\ UNCHANGED <<hist, nreads, wire0>>
      \/ IdleExtractPanics /\ hist' = Append(hist, Ev("pan", 0, <<>>)) /\ UNCHANGED <<nreads, wire0>>
+     \/ IdleExtractErr /\ hist' = Append(hist, Ev("er", 0, <<>>)) /\ UNCHANGED <<nreads, wire0>>
+     \/ PollPoisoned /\ hist' = Append(hist, Ev("pan", 0, <<>>)) /\ UNCHANGED <<nreads, wire0>>
      \/ \E n \in 1..Min(ChunkMax, Len(wire)) :
           ChunkOK(n) /\ ReadData(n) /\ hist' = Append(hist, Ev("r", n, <<>>)) /\ nreads' = nreads + 1
           /\ UNCHANGED wire0
@@ -81,6 +83,6 @@ Emit == Finished =>
                              enc |-> [i \in 1..Len(frames) |-> Enclose(fr, frames[i])],
                              trunc |-> SomeTruncated,
                              x0 |-> X0,
-                             pan |-> (st = "panic"),
+                             pan |-> (st \in {"panic", "poisonpanic"}), limit |-> LimLimit,
                              ev |-> hist])>>)
 =============================================================================
